@@ -41,8 +41,8 @@
 //                    NOTE the inspector has a session node of its own (under a host node of its own) in every snapshot.
 //   TreeSnap/NodeSnap, DiffSnap()   snapshot comparison with the two exclusions C06 needs (a subtree, a session id in
 //                    subscriber tables); DiffSnap returns human-readable lines "node removed|created|changed(...): path".
-//   RefPathMatch()   independent 20-line reference for subscription paths made only of literals, `*`, `(a|b)` and `a,b`
-//                    clauses (relative paths get the */*/ prefix muscle documents); CheckSubscriberInvariant() checks
+//   RefPathMatch()   independent 20-line reference for subscription paths made only of literals (a backslash makes the next
+//                    character literal: EscapeClause()), `*`, `(a|b)` and `a,b` clauses (relative paths get the */*/ prefix); CheckSubscriberInvariant() checks
 //                    subscribers(node)[s] == #{subscription strings of s that match node} over ALL nodes of a snapshot.
 //   Frame()/FrameStream()           Message -> wire bytes (8-byte header: LE body size, LE encoding; then the flattened body).
 //   ParamSnap()      GETPARAMETERS reply minus the seven volatile PR_NAME_SERVER_* clock/memory fields, as bytes.
@@ -132,13 +132,24 @@ static inline std::string FrameStream(const std::vector<MessageRef> & ms, std::v
 static inline std::vector<std::string> SplitPath(const std::string & s) { std::vector<std::string> v; size_t st = 0; while (true) { size_t k = s.find('/', st); v.push_back(s.substr(st, k == std::string::npos ? k : k - st)); if (k == std::string::npos) break; st = k + 1; } return v; }
 // canonical (root-relative, no leading slash) form of a subscription / key path: "a" -> "*/*/a", "/x/y" -> "x/y"
 static inline std::string CanonSub(const std::string & p) { if (p.empty()) return p; return (p[0] == '/') ? p.substr(1) : ("*/*/" + p); }
+// clause grammar: `*` | alternatives separated by unescaped `|` or `,`, optionally wrapped in unescaped ( ) ; every alternative is a
+// literal in which a backslash makes the next character literal (so `we\*rd` names the node `we*rd`, `com\,ma` the node `com,ma`)
 static inline bool RefClauseMatch(const std::string & pat, const std::string & name)
 {
    if (pat == "*") return true;
-   std::string p = pat; if (p.size() >= 2 && p[0] == '(' && p[p.size() - 1] == ')') p = p.substr(1, p.size() - 2);
-   size_t st = 0;
-   while (true) { size_t e = p.find_first_of("|,", st); if (p.compare(st, (e == std::string::npos ? p.size() : e) - st, name) == 0) return true; if (e == std::string::npos) return false; st = e + 1; }
+   size_t b = 0, e = pat.size();
+   if (e >= 2 && pat[0] == '(' && pat[e - 1] == ')' && pat[e - 2] != '\\') { b = 1; e--; }
+   std::string alt;
+   for (size_t i = b; i <= e; i++) {
+      if (i == e || pat[i] == '|' || pat[i] == ',') { if (alt == name) return true; alt.clear(); continue; }
+      if (pat[i] == '\\' && i + 1 < e) i++;
+      alt += pat[i];
+   }
+   return false;
 }
+// `name` with every wildcard metacharacter backslash-escaped: the clause that names exactly this node
+static inline std::string EscapeClause(const std::string & name) { std::string o; for (size_t i = 0; i < name.size(); i++) { if (strchr("*?[](),|\\", name[i])) o += '\\'; o += name[i]; } return o; }
+static inline bool HasMeta(const std::string & s) { return s.find_first_of("*?[](),|\\") != std::string::npos; }
 static inline bool RefPathMatch(const std::string & subscription, const std::string & nodePath)
 {
    if (subscription.empty() || nodePath.size() < 2 || nodePath[0] != '/') return false;       // the root node "/" matches nothing
